@@ -11,7 +11,7 @@ Rules (each can be applied at one token or at all tokens):
 HEX = '0123456789abcdefABCDEF'
 WS_KINDS = [' ', '\t', '\n', '\r\n', '\r', '\f']
 TERMINATORS = [' ', '\t', '\n', '\r\n', '\f']          # a lone \r could fuse with a following \n (see DESIGN.md section 3)
-COMMENT_ALPHABET = [' ', 'x', '*', '/', '"', "'", '\n', '(', ')', '[', ']', ',', '>', '+', '~', '\\', ':', 'é', '\r\n', '\t',
+COMMENT_ALPHABET = ['en', 'de', '"fr"', 'alpha', "'t'", '""', ' ', 'x', '*', '/', '"', "'", '\n', '(', ')', '[', ']', ',', '>', '+', '~', '\\', ':', 'é', '\r\n', '\t',
                     '/*', '* /', '**', 'of', 'i', '|', '=', '#', '.', '@', '-->', '{', '\\"']
 
 
@@ -133,6 +133,8 @@ def classify(tokens):
     for i, t in enumerate(tokens):
         if t[0] == 'kw' and i and tokens[i - 1] == ('p', ':'):
             out.append(('pn', t[1]))
+        elif t[0] == 'id' and i and tuple(tokens[i - 1]) == ('p', ':') and t[1].startswith('--'):
+            out.append(('cn', t[1]))                      # custom pseudo-class name: case-insensitive, ':--' literal
         else:
             out.append(tuple(t))
     return out
@@ -149,7 +151,7 @@ def applicable(tok):
         return ['esc']
     if k in ('val', 'str'):
         return ['esc', 'quote']
-    if k == 'pn':
+    if k in ('pn', 'cn'):
         return ['case', 'esc']
     if k == 'kw':
         return ['case']
@@ -174,15 +176,15 @@ def render(tokens, rng, active):
             if 'case' in rules:
                 s = spell_case(rng, s)
             out.append(spell_ident(rng, s, .35) if 'esc' in rules else s)
+        elif k == 'cn':
+            # custom pseudo-class names are recognised by their literal ':--' prefix (documented form); the rest of the
+            # name is an ASCII-case-insensitive identifier and may be escaped
+            s = t[1]
+            if 'case' in rules:
+                s = s[:2] + spell_case(rng, s[2:])
+            out.append(spell_ident(rng, s, .35, keep_prefix=2) if 'esc' in rules else ser_ident(s))
         elif k == 'id':
-            if 'esc' not in rules:
-                out.append(ser_ident(t[1]))
-            elif t[1].startswith('--') and i and tokens[i - 1] == ('p', ':'):
-                # custom pseudo-class names are recognised by their literal ':--' prefix (documented form); the rest
-                # of the name may be escaped
-                out.append(spell_ident(rng, t[1], keep_prefix=2))
-            else:
-                out.append(spell_ident(rng, t[1]))
+            out.append(spell_ident(rng, t[1]) if 'esc' in rules else ser_ident(t[1]))
         elif k in ('val', 'str'):
             v = t[1]
             as_ident = k == 'val' and 'quote' in rules and len(v) > 0 and rng.random() < .5
